@@ -807,7 +807,9 @@ func (r *Run) opCopy(op *Op) {
 	r.stats.Mutations++
 	r.ok("copy.semantics")
 	// source unchanged, destination equal to the source
-	r.checkEntity(r.quiet("GET", target(op.SrcB, op.SrcKey, nil)), src, false, "read.content", "(source after copy)")
+	if op.SrcB != op.B || op.SrcKey != op.Key {
+		r.checkEntity(r.quiet("GET", target(op.SrcB, op.SrcKey, nil)), src, false, "read.content", "(source after copy)")
+	}
 	r.checkEntity(r.quiet("GET", target(op.B, op.Key, nil)), ent, false, "read.content", "(destination after copy)")
 }
 
